@@ -795,6 +795,24 @@ fn synth_case_chain(
         return Ok(false);
     }
 
+    // The sum-of-products below ORs the arms together, which is only
+    // first-match-wins when no two arms can match the same selector value.
+    // A repeated constant or overlapping ranges need the priority the
+    // generic nested-if lowering gives them.
+    let span = |c: &ArmCondition| match *c {
+        ArmCondition::Eq(k) => (k, k.saturating_add(1)),
+        ArmCondition::Range(lo, hi) => (lo.unwrap_or(0), hi.unwrap_or(u64::MAX)),
+    };
+    for (i, a) in chain.arms.iter().enumerate() {
+        let (a_lo, a_hi) = span(&a.cond);
+        for b in &chain.arms[..i] {
+            let (b_lo, b_hi) = span(&b.cond);
+            if a_lo < b_hi && b_lo < a_hi {
+                return Ok(false);
+            }
+        }
+    }
+
     // This fold processes arm bodies without pushing onto `cond_stack`, so a RAM
     // write inside would lose its arm condition. Fall back to nested-if lowering.
     if !ctx.ram_vars.is_empty()
